@@ -27,6 +27,10 @@ func runC01(c *Ctx) {
 	c.Rep.rule("R01.4", "typestate", "Send/Stop/PushNode/Cache.Put on a pool node require ownership; a released node is not touched again", 6)
 	c.runOwnership("R01.4")
 	c.ruleSubmitPaths("R01.5", submitChecks{reject: true, sameJob: true})
+	// the in-memory queues neither lose nor duplicate what they accepted (the structural part: C04's segment rules)
+	c.ruleFifoSegments("R01.6", c.pqRoles("R01.6"))
+	// an accepted job is only ever invoked if the dispatcher cannot lose the wake-up that announces it
+	c.ruleDispatcherLoop("R01.7")
 }
 
 // concreteDequeues: the library's own queue implementations of Dequeue.
@@ -313,7 +317,7 @@ func (c *Ctx) submitSegments(f *Func) []Segment {
 	if s, ok := c.cache[key]; ok {
 		return s.([]Segment)
 	}
-	v := c.vocab([]string{"enq", "enqok=", "Submitted", "notify", "close", "status:", "json", "jsonerr="}, map[string]bool{"close": true})
+	v := c.vocab([]string{"enq", "enqok=", "Submitted", "notify", "close", "status:", "json", "jsonerr=", "break"}, map[string]bool{"close": true})
 	sr := v.seq("submit", true)
 	base := sr.classify
 	jsonFn := c.methodOf(c.R.JobT, "Json")
@@ -347,6 +351,10 @@ func (c *Ctx) ruleSubmitPaths(rule string, chk submitChecks) {
 				continue
 			}
 			desc := "[" + strings.Join(sg.Syms, " ") + "]"
+			if chk.reject && isBatch && sg.Kind == "iter" {
+				c.Rep.check(!sg.has("break") && !sg.Exit, rule, f.Short(), "batch loop abandoned", sg.End, "every item of the batch is visited",
+					"the batch loop is left (break/return) before all items were submitted or closed: the remaining items are never counted off, the batch never completes and its stream never closes: "+desc)
+			}
 			switch {
 			case sg.has("enqok=false"):
 				if chk.reject {
